@@ -436,8 +436,19 @@ def _collect_state(ctx, dom, results):
     return tot
 
 
+def deductive(ctx):
+    """engine D: on every path of the real Task.split each given value is wrapped once (StateArray of its own value / the lazy
+    field's own split) and stored under its own name, and the task returned is self evolved with exactly those wrapped inputs,
+    carrying the splitter and container_ndim that were given -- contracts/split_validation.py:contract_c01"""
+    from contracts import split_validation as TS
+    from pyvc.verify import verify, summarize
+
+    summarize(ctx, verify(ctx, TS.contract_c01()))
+
+
 def run(ctx):
     try:
+        deductive(ctx)
         _run(ctx)
     finally:
         close_pool()
